@@ -2983,8 +2983,12 @@ pub fn run_case(mode: &Mode, rep: &mut Report, seed: u64, case: u64, max_ops: u6
             eprintln!("{q}    => {a}");
         }
     }
+    // every request of the case carries `@seed:case:max_ops` (ignored by the driver), so that a
+    // model / implementation disagreement names the case to replay:
+    //   c03|c18 --replay <file with {"replay": {"property", "seed", "case", "max_ops"}}> --verbose
+    let tag = format!("@{seed}:{case}:{max_ops}");
     for (q, a) in lines {
-        rep.expect(q, a);
+        rep.expect(format!("{tag} {q}"), a);
     }
     true
 }
